@@ -5,6 +5,7 @@ import (
 	"github.com/gobuffalo/plush/v5/vtick"
 	"html/template"
 	"strings"
+	"testing/iotest"
 
 	"verifmc/engine"
 
@@ -217,7 +218,7 @@ func init() {
 			return s
 		},
 		Run:  c02Run,
-		Rule: "family A: every string over {< % > \\ = # a \" { \\n é} up to length L bare, and s1·TAG·s2 around each of 4 generated tags (|s1|<=3,|s2|<=2), compared with a left-to-right reference scanner that knows only the two escapes; templates whose reference scan meets a live <% that is not the generated tag are outside the grammar (totality only). Family B: <%= \"S\" %> / <%= `S` %> / let-bound / helper-argument string literals for every body S over {a \\ \" % > < # \\n é } space `} up to length L that the reference tokeniser closes at its own quote; expected = HTML-escape(denotation). Family C: every sequence of <=3 items from {text, output tag, output of a template function that has literal text and an explicit return, 24 silent constructs (expression/let/assign/if/for/comment/line-comment/fn statements incl. values that are HTML)} in 12 placements (top, if, else, for, fn body, helper block, for+if, iterator loop ending in break, slice loop ending in continue, map loop ending in break, a helper's block in a loop body ending in break / continue); expected = the same sequence with silent items deleted. Family E: every sequence of <=3 (4) pieces from {a, CRLF, CR, LF, TAB, space, NUL, 0xFF, VT+FF, é, an output tag, a silent tag, string literals containing CRLF / CR}: copied byte for byte; a byte-order mark among the pieces; text and values produced 5..130 levels deep (recursive function, nested blocks); templates differing only in surrounding white space rendered alternately with the cache on. Family D: comment tags whose body is any string of <=3 (4) symbols over {a \" ' # ` < % { } ( \\n space \\ = let 1.2.3} not containing the closing delimiter, spaced and tight, at top level and inside a block: the tag contributes nothing and the template continues after its %>. Non-trivial: contains an escape-relevant byte next to a boundary / a silent item.",
+		Rule: "family A: every string over {< % > \\ = # a \" { \\n é} up to length L bare, and s1·TAG·s2 around each of 4 generated tags (|s1|<=3,|s2|<=2), compared with a left-to-right reference scanner that knows only the two escapes; templates whose reference scan meets a live <% that is not the generated tag are outside the grammar (totality only). Family B: <%= \"S\" %> / <%= `S` %> / let-bound / helper-argument string literals for every body S over {a \\ \" % > < # \\n é } space `} up to length L that the reference tokeniser closes at its own quote; expected = HTML-escape(denotation). Family C: every sequence of <=3 items from {text, output tag, output of a template function that has literal text and an explicit return, 24 silent constructs (expression/let/assign/if/for/comment/line-comment/fn statements incl. values that are HTML)} in 12 placements (top, if, else, for, fn body, helper block, for+if, iterator loop ending in break, slice loop ending in continue, map loop ending in break, a helper's block in a loop body ending in break / continue); expected = the same sequence with silent items deleted. Family E: every sequence of <=3 (4) pieces from {a, CRLF, CR, LF, TAB, space, NUL, 0xFF, VT+FF, é, an output tag, a silent tag, string literals containing CRLF / CR}: copied byte for byte; a byte-order mark among the pieces; text and values produced 5..130 levels deep (recursive function, nested blocks); templates differing only in surrounding white space rendered alternately with the cache on. The same text of 0 .. 3 MiB (sizes around 512, 4096, 32768, 65536 and 1 MiB) followed by a tag through every public entry point (Render, RenderR, RenderR from a one-byte reader, Template.Exec, Clone, BuffaloRenderer). Family D: comment tags whose body is any string of <=3 (4) symbols over {a \" ' # ` < % { } ( \\n space \\ = let 1.2.3} not containing the closing delimiter, spaced and tight, at top level and inside a block: the tag contributes nothing and the template continues after its %>. Non-trivial: contains an escape-relevant byte next to a boundary / a silent item.",
 		Bound: func(th bool) string {
 			if th {
 				return "A: bare |s|<=6, around |s1|<=3 |s2|<=2, core alphabet {\\ < % a} bare |s|<=10 and before/around a tag |s|<=8; B: |S|<=5; C: sequences <=3"
@@ -240,6 +241,58 @@ func c02Run(t *engine.T, shard string) {
 		// family E: literal text is copied byte for byte - carriage returns, every other control byte, any encoding,
 		// outside tags, between tags and inside string literals; also when templates that differ only in surrounding
 		// white space are rendered one after the other with the cache on
+		// every public entry point copies literal text the same way, at every size: Render, RenderR (also from a
+		// reader that hands out one byte at a time), a Template value, its Clone, BuffaloRenderer
+		for _, size := range []int{0, 1, 511, 512, 513, 4095, 4096, 4097, 32768, 65535, 65536, 65537, 1<<20 - 1, 1 << 20, 1<<20 + 1, 3<<20 + 7} {
+			size := size
+			t.Case(fmt.Sprintf("bytes entry points, %d bytes of text before the last tag", size), true, func() (string, *engine.Fail) {
+				vtick.Reset(2_000_000_000)
+				line := "line of text 0123456789 <b>é</b>\r\n"
+				text := strings.Repeat(line, size/len(line)+1)[:size]
+				src := text + `<%= "v" %>` + "tail\n"
+				want := text + "vtail\n"
+				plush.CacheEnabled = false
+				routes := []struct {
+					name string
+					run  func() (string, error)
+				}{
+					{"Render", func() (string, error) { return plush.Render(src, plush.NewContext()) }},
+					{"RenderR", func() (string, error) { return plush.RenderR(strings.NewReader(src), plush.NewContext()) }},
+					{"RenderR from a one-byte reader", func() (string, error) {
+						return plush.RenderR(iotest.OneByteReader(strings.NewReader(src)), plush.NewContext())
+					}},
+					{"NewTemplate + Exec", func() (string, error) {
+						tm, err := plush.NewTemplate(src)
+						if err != nil {
+							return "", err
+						}
+						return tm.Exec(plush.NewContext())
+					}},
+					{"Parse + Clone + Exec", func() (string, error) {
+						tm, err := plush.Parse(src)
+						if err != nil {
+							return "", err
+						}
+						return tm.Clone().Exec(plush.NewContext())
+					}},
+					{"BuffaloRenderer", func() (string, error) { return plush.BuffaloRenderer(src, map[string]interface{}{}, nil) }},
+				}
+				for _, r := range routes {
+					if size > 70000 && r.name == "RenderR from a one-byte reader" {
+						continue
+					}
+					out, err := r.run()
+					if err != nil || out != want {
+						i := 0
+						for i < len(out) && i < len(want) && out[i] == want[i] {
+							i++
+						}
+						return "", engine.Failf("mismatch", "%s: %d bytes expected, %d rendered (error %v), first difference at byte %d", r.name, len(want), len(out), err, i)
+					}
+				}
+				return "match", nil
+			})
+		}
 		pieces := []string{"a", "\xef\xbb\xbf", "\r\n", "\r", "\n", "\t", " ", "\x00", "\xff", "\x0b\x0c", "é", `<%= "v" %>`, `<% let q = 1 %>`, "<%= \"x\r\ny\" %>", "<%= `p\r\nq\r` %>"}
 		denote := map[string]string{`<%= "v" %>`: "v", `<% let q = 1 %>`: "", "<%= \"x\r\ny\" %>": "x\r\ny", "<%= `p\r\nq\r` %>": "p\r\nq\r"}
 		L := 3
